@@ -106,9 +106,26 @@ pub fn c03_level(m: u16, mode: HandleControl) -> Option<u8> {
     }
 }
 
+/// C03's level for one key: "Ctrl being mapped" (C09's territory) only concerns keys that type an ASCII letter on that layout;
+/// on every other key a held Ctrl key in MapLettersToUnicode mode leaves the level selection as it is (seeded round 8)
+pub fn c03_level_k(l: usize, k: KeyCode, m: u16, mode: HandleControl) -> Option<u8> {
+    if mode == HandleControl::MapLettersToUnicode && r_ctrl(m) && !r_capslock(m) {
+        let letter = ref_level(l, k, 0).map_or(true, |b| b.iter().any(|c| c.is_ascii_alphabetic()));
+        if !letter {
+            return match (r_shift(m), r_altgr(m)) {
+                (false, false) => Some(0),
+                (true, false) => Some(1),
+                (false, true) => Some(2),
+                (true, true) => None,
+            };
+        }
+    }
+    c03_level(m, mode)
+}
+
 /// judge one C03 point; Err((expected text, kind)) on violation; Ok(true) if judged, Ok(false) if unjudged/unconstrained
 pub fn c03_judge(l: usize, k: KeyCode, m: u16, mode: HandleControl, out: &Result<DecodedKey, String>, base_out: &Result<DecodedKey, String>) -> Result<bool, (String, &'static str)> {
-    let Some(level) = c03_level(m, mode) else { return Ok(false) };
+    let Some(level) = c03_level_k(l, k, m, mode) else { return Ok(false) };
     let (Some(base), Some(shift)) = (ref_level(l, k, 0), ref_level(l, k, 1)) else { return Ok(false) };
     match level {
         0 | 1 => {
@@ -121,7 +138,14 @@ pub fn c03_judge(l: usize, k: KeyCode, m: u16, mode: HandleControl, out: &Result
         _ => {
             // AltGr: either no distinct character (same as the base level output) or the standard's AltGr character
             if out == base_out {
-                return Ok(true);
+                // no distinct character in this state: fine only if the layout gives this key no distinct AltGr character
+                // in the plain AltGr state either ("this holds in every modifier state that selects that level")
+                let canon = guarded(|| map_direct(l, k, &mods_from_bits(M_NUM | M_RALT), HandleControl::Ignore));
+                let canon_base = guarded(|| map_direct(l, k, &mods_from_bits(M_NUM), HandleControl::Ignore));
+                if canon == canon_base || !matches!(canon, Ok(DecodedKey::Unicode(_))) {
+                    return Ok(true);
+                }
+                return Err((format!("{} as with AltGr alone (the layout gives this key a distinct AltGr character, so every modifier state that selects the AltGr level must type it), not the base-level output", otext(&canon)), "altgr-inconsistent"));
             }
             let want = ref_altgr(l, k);
             match out {
@@ -194,7 +218,7 @@ fn c03_chunk(form: usize, l: usize) -> ChunkOut {
                     }
                     continue;
                 }
-                if c03_level(m, mode).is_none() {
+                if c03_level_k(l, k, m, mode).is_none() {
                     continue;
                 }
                 let mods = mods_from_bits(m);
